@@ -27,6 +27,14 @@ CORPUS = [
     ["participant P", "publisher pb P", "subscriber sb P", "topic t P A ki", "writer w pb t", "reader r sb t",
      "delete pb", "delete sb", "delete t", "delete P", "probe pb", "probe w", "delete w", "delete w", "probe w", "write w 1 00",
      "delete pb", "probe pb", "writer w2 pb t", "delete r", "delete sb", "delete t", "probe t", "delete P", "probe P", "publisher x P"],
+    # a topic used by a writer (reader) of ANY publisher (subscriber) is protected: the user sits in the first / middle one, the
+    # last one is empty or uses another topic (seeded change C36_b: a flag overwritten per publisher)
+    ["participant P", "topic t P A ki", "topic u P B ki", "publisher pb1 P", "publisher pb2 P", "writer w pb1 t", "writer w2 pb2 u",
+     "delete t", "probe t", "probe w", "delete u", "publisher pb3 P", "delete t", "delete w2", "delete u", "delete t", "delete w", "delete t", "probe t"],
+    ["participant P", "topic t P A ki", "topic u P B ki", "subscriber sb1 P", "subscriber sb2 P", "subscriber sb3 P", "reader r sb2 t", "reader r2 sb3 u",
+     "delete t", "probe t", "probe r", "delete r2", "delete t", "delete u", "delete r", "delete t", "probe t"],
+    ["participant P", "topic t P A ki", "publisher pb1 P", "publisher pb2 P", "subscriber sb1 P", "subscriber sb2 P", "writer w pb1 t",
+     "delete t", "probe w", "reader r sb1 t", "delete w", "delete t", "probe r", "delete r", "delete t"],
     ["participant P", "participant Q", "publisher pb P", "delete-from Q pb", "topic t P A ki", "delete-from Q t",
      "delete-contained P", "probe pb", "probe t", "delete P", "delete Q", "delete-contained Q"],
 ]
